@@ -30,5 +30,5 @@ func runStoreReweight(c *Ctx) {
 	}
 }
 
-func runProtoMessages(c *Ctx)         {}
-func runProtoArbitraryWeights(c *Ctx) {}
+func runProtoMessages(c *Ctx)         { runProtoMessagesImpl(c) }
+func runProtoArbitraryWeights(c *Ctx) { runProtoArbitraryWeightsImpl(c) }
